@@ -134,6 +134,7 @@ class Gen:
         self.svars = []
         self.bvars = []
         self.stacks = []
+        self.countvars = []
         self.counter = 0
 
     # ---- values
@@ -146,6 +147,7 @@ class Gen:
                 opts.append(("hdr", r.choice(["0", "1"])))
             opts += [("var", v, None) for v in self.nvars]
             opts += [("fn", "get", [("str", v)], []) for v in self.nvars[:1]]
+            opts += [("var", v, r.choice(["True", "False"])) for v in self.countvars[:2]]
             return r.choice(opts)
         f = r.choice(["add", "subtract", "multiply", "int", "length", "count_lines", "line_number", "mod", "round", "minus", "count_scans", "total_lines", "float", "divide", "count_headers", "count_headers_in_line"])
         if f in ("add", "multiply"):
@@ -307,7 +309,12 @@ class Gen:
     def aggregate(self, quals=()):
         """a side-effecting aggregate function used as a component of its own"""
         r = self.r
-        f = r.choice(["tally", "sum", "counter", "push", "push", "push_distinct", "first", "every", "subtotal", "pop", "stackops"])
+        f = r.choice(["tally", "sum", "counter", "push", "push", "push_distinct", "first", "every", "subtotal", "pop", "stackops", "countv"])
+        if f == "countv":
+            # count(<bool expr>): a tally of True/False kept under the function's name, keyed by the bool itself
+            name = self.fresh("cn")
+            self.countvars.append(name)
+            return ("fn", "count", [self.boolv(1)], [name])
         q = list(quals)
         if f in ("first", "every", "pop", "stackops"):
             # vote-bearing or value-consuming: onmatch would make their own vote part of "the rest" (undefined order)
@@ -388,16 +395,26 @@ class Gen:
                 comps.append(self.boolv(3))
         if "rewrite" in f and r.random() < 0.3:
             # line-rewriting / projecting functions (only used by relational checks: no reference semantics needed)
-            k = r.choice(["collect", "collect", "collecti", "replace", "append"])
-            if k == "collect":
-                node = ("fn", "collect", [("hdr", h) for h in r.sample(["a", "b", "c", "d"], r.randint(1, 3))], [])
-            elif k == "collecti":
-                node = ("fn", "collect", [("int", i) for i in sorted(r.sample([0, 1, 2, 3, 4], r.randint(1, 3)))], [])
-            elif k == "replace":
-                node = ("fn", "replace", [("hdr", r.choice(["a", "c", "d"])), r.choice([("str", "zz"), ("fn", "line_number", [], [])])], [])
-            else:
-                node = ("fn", "append", [("str", "extra_h"), r.choice([("fn", "line_number", [], []), ("str", "x")])], [])
-            comps.insert(r.randint(0, len(comps)), node)
+            for _ in range(r.choice([1, 1, 2])):
+                k = r.choice(["collect", "collect", "collecti", "replace", "append", "append-later", "reset_headers", "reset-then-append", "reset-then-append"])
+                at = ("eq", ("fn", "line_number", [], ["nocontrib"]), ("int", r.choice([1, 2, 3, 4])))
+                if k == "collect":
+                    node = ("fn", "collect", [("hdr", h) for h in r.sample(["a", "b", "c", "d"], r.randint(1, 3))], [])
+                elif k == "collecti":
+                    node = ("fn", "collect", [("int", i) for i in sorted(r.sample([0, 1, 2, 3, 4], r.randint(1, 3)))], [])
+                elif k == "replace":
+                    node = ("fn", "replace", [("hdr", r.choice(["a", "c", "d"])), r.choice([("str", "zz"), ("fn", "line_number", [], [])])], [])
+                elif k == "append":
+                    node = ("fn", "append", [("str", "extra_h"), r.choice([("fn", "line_number", [], []), ("str", "x")])], [])
+                elif k == "reset-then-append":
+                    i_ = r.choice([0, 1, 2])
+                    comps.insert(r.randint(0, len(comps)), ("when", ("eq", ("fn", "line_number", [], ["nocontrib"]), ("int", i_)), ("fn", "reset_headers", [], [])))
+                    node = ("when", ("eq", ("fn", "line_number", [], ["nocontrib"]), ("int", i_ + r.choice([1, 2, 3]))), ("fn", "append", [("str", "late_h"), ("str", "y")], []))
+                elif k == "append-later":
+                    node = ("when", at, ("fn", "append", [("str", "late_h"), ("str", "y")], []))
+                else:
+                    node = ("when", at, ("fn", "reset_headers", [], []))
+                comps.insert(r.randint(0, len(comps)), node)
         if "control" in f and r.random() < 0.25 and mode == "AND":
             comps.append(("when", ("fn", "last", [], []), r.choice([self.printc([]), ("fn", "push", [("str", "L"), ("fn", "line_number", [], [])], [])])))
         return {"scan": scan or self.scan(), "comps": comps, "mode": mode}
